@@ -131,15 +131,21 @@ func (a *stdTransport) RoundTrip(req *http.Request) (*http.Response, error) {
 		}
 	}()
 
+	// Note: what a registry has told us (its challenge) and given us
+	// (its tokens) belongs to the endpoint that we were talking to, so
+	// the scheme is part of the key: the plaintext endpoint
+	// of a host name isn't sent anything on the strength of what
+	// the https endpoint of that name asked for.
+	key := req.URL.Scheme + "://" + req.URL.Host
 	a.mu.Lock()
-	r := a.registries[req.URL.Host]
+	r := a.registries[key]
 	if r == nil {
 		r = &registry{
 			host:      req.URL.Host,
 			config:    a.config,
 			transport: a.transport,
 		}
-		a.registries[r.host] = r
+		a.registries[key] = r
 	}
 	a.mu.Unlock()
 	if err := r.init(); err != nil {
